@@ -4,6 +4,7 @@ System: the real wishbone.Decoder with 0-5 stub subordinate interfaces (dense wi
 granularity with every admissible feature subset, and sparse windows). Request agent: arbitrary
 request signals every cycle. Target agents: respond (ack/err/rty/stall in any combination) only
 while they see cyc and stb, and drive garbage dat_r always."""
+from simkit.rng import mix
 from simkit.core import World, Violation, Refused
 from simkit import hw
 
@@ -23,7 +24,7 @@ class WbDecWorld(World):
                        "requesting initiator (seeded byzantine agent)")
     fault_kinds = ("byzantine_request", "garbage_dat_r_unselected", "multi_response",
                    "err_response", "rty_response", "stall_response", "nobody_selected_with_cyc",
-                   "stb_without_cyc", "rejected_re_add", "rejected_invalid_add", "memory_map_assigned_through_setter",
+                   "stb_without_cyc", "rejected_re_add", "rejected_invalid_add", "refused_bus_responds", "memory_map_assigned_through_setter",
                    "second_instance_in_process", "queried_or_elaborated_while_being_populated")
     assumptions = (
         "Amaranth's Python RTL simulator executes the elaborated netlist faithfully",
@@ -154,7 +155,9 @@ class WbDecWorld(World):
                                     features=spell(feats), alignment=config["al"])
             stats.fault("second_instance_in_process")
         subs = []
+        ghosts = []
         for i, sc in enumerate(config["subs"]):
+            sb = None
             if config.get("mid") is not None and i == config["mid"] + 1:
                 if config.get("mid_how") == "patterns":
                     list(dut.bus.memory_map.window_patterns())
@@ -178,6 +181,8 @@ class WbDecWorld(World):
                 s, e, r = dut.add(sb, name=sc.get("name"), sparse=sc["sparse"], **kw)
             except (ValueError, TypeError):
                 stats.probe("window_refused")
+                if "sb" in dir() and sb is not None and hasattr(sb, "ack"):
+                    ghosts.append(sb)      # refused: not a subordinate, whatever it does
                 continue
             if not sc["sparse"] and sc["g"] != g:
                 raise Refused("dense finer-granularity window is outside C07's domain")
@@ -261,6 +266,16 @@ class WbDecWorld(World):
                 if "bte" in feats:
                     opt["bte"] = int(op.get("bte", 0)) & 3
                     p.set(b.bte, opt["bte"])
+                # a bus whose add() was refused is not part of the decoder: it may respond as it
+                # likes (it may be attached elsewhere) without anything showing upstream
+                for gi, gb_ in enumerate(ghosts):
+                    gv = mix(int(op.get("dat_w", 0)) * 31 + gi + t)
+                    p.set(gb_.ack, gv & 1)
+                    p.set(gb_.dat_r, (gv >> 8) & ((1 << len(gb_.dat_r)) - 1))
+                    for bit, nm in enumerate(("err", "rty", "stall"), 1):
+                        if hasattr(gb_, nm):
+                            p.set(getattr(gb_, nm), (gv >> bit) & 1)
+                    stats.fault("refused_bus_responds")
                 stats.fault("byzantine_request")
                 if req["stb"] and not req["cyc"]:
                     stats.fault("stb_without_cyc")
